@@ -1,0 +1,69 @@
+//go:build verif
+// +build verif
+
+package linker
+
+import (
+	"sort"
+
+	"github.com/evanw/esbuild/internal/ast"
+)
+
+// Thin wrappers (no logic) used by the verification harness in /verif (C08):
+// the unexported comparator types that make output order canonical.
+
+type VerifStableRef struct {
+	StableSourceIndex uint32
+	Ref               ast.Ref
+}
+
+func VerifStableRefLess(a VerifStableRef, b VerifStableRef) bool {
+	return stableRefArray{stableRef(a), stableRef(b)}.Less(0, 1)
+}
+
+func VerifSortStableRefs(items []VerifStableRef) []VerifStableRef {
+	arr := make(stableRefArray, len(items))
+	for i, it := range items {
+		arr[i] = stableRef(it)
+	}
+	sort.Sort(arr)
+	out := make([]VerifStableRef, len(arr))
+	for i, it := range arr {
+		out[i] = VerifStableRef(it)
+	}
+	return out
+}
+
+type VerifChunkOrder struct {
+	SourceIndex uint32
+	Distance    uint32
+	TieBreaker  uint32
+}
+
+func VerifChunkOrderLess(a VerifChunkOrder, b VerifChunkOrder) bool {
+	return chunkOrderArray{
+		{sourceIndex: a.SourceIndex, distance: a.Distance, tieBreaker: a.TieBreaker},
+		{sourceIndex: b.SourceIndex, distance: b.Distance, tieBreaker: b.TieBreaker},
+	}.Less(0, 1)
+}
+
+func VerifSortChunkOrder(items []VerifChunkOrder) []VerifChunkOrder {
+	arr := make(chunkOrderArray, len(items))
+	for i, it := range items {
+		arr[i] = chunkOrder{sourceIndex: it.SourceIndex, distance: it.Distance, tieBreaker: it.TieBreaker}
+	}
+	sort.Sort(arr)
+	out := make([]VerifChunkOrder, len(arr))
+	for i, it := range arr {
+		out[i] = VerifChunkOrder{SourceIndex: it.sourceIndex, Distance: it.distance, TieBreaker: it.tieBreaker}
+	}
+	return out
+}
+
+func VerifCrossChunkImportLess(aChunkIndex uint32, bChunkIndex uint32) bool {
+	return crossChunkImportArray{{chunkIndex: aChunkIndex}, {chunkIndex: bChunkIndex}}.Less(0, 1)
+}
+
+func VerifCrossChunkImportItemLess(aAlias string, aRef ast.Ref, bAlias string, bRef ast.Ref) bool {
+	return crossChunkImportItemArray{{exportAlias: aAlias, ref: aRef}, {exportAlias: bAlias, ref: bRef}}.Less(0, 1)
+}
